@@ -184,3 +184,50 @@ Proof.
   - apply (all48_inv_aff_ok o Ho n0 n1 n2 rest 0 0 0 []).
   - now apply all48_last_row.
 Qed.
+
+(* ====================================================================================
+   funcs.py helpers that keep the affine: four_to_three, squeeze_image, enforce_diag *)
+Lemma four_to_three_spec {V} (im : img V) l : four_to_three im = Ok5 l ->
+  length (a_shape (i_data im)) = 4%nat /\
+  forall i, 0 <= i < znth (a_shape (i_data im)) 3 0 ->
+    let v := nth (Z.to_nat i) l im in
+    i_aff v = i_aff im /\ i_dim v = i_dim im /\ a_shape (i_data v) = firstn 3 (a_shape (i_data im))
+    /\ forall j, a_get (i_data v) j = a_get (i_data im) (j ++ [i]).
+Proof.
+  unfold four_to_three. destruct (Nat.eqb (length (a_shape (i_data im))) 4) eqn:E; [|discriminate].
+  cbn [negb]. intros H. injection H as <-. apply Nat.eqb_eq in E. split; [assumption|].
+  intros i Hi. cbv zeta.
+  rewrite (nth_map_in _ _ _ im 0) by (pose proof (zseq_length (znth (a_shape (i_data im)) 3 0)); lia).
+  rewrite nth_zseq by assumption. cbn [i_aff i_dim i_data a_shape a_get]. repeat split.
+Qed.
+
+Lemma count_trailing_ones_le l : (count_trailing_ones l <= length l)%nat.
+Proof.
+  induction l as [|x l IH]; [cbn; lia|]. cbn [count_trailing_ones length].
+  destruct x as [|p|p]; try lia. destruct p; lia.
+Qed.
+
+Lemma squeeze_image_spec {V} (im : img V) : (3 <= length (a_shape (i_data im)))%nat ->
+  let im' := squeeze_image im in
+  i_aff im' = i_aff im /\ i_dim im' = i_dim im
+  /\ firstn 3 (a_shape (i_data im')) = firstn 3 (a_shape (i_data im))
+  /\ exists k, forall j, a_get (i_data im') j = a_get (i_data im) (j ++ repeat 0%Z k).
+Proof.
+  intros H3. cbv zeta. unfold squeeze_image. cbn [i_aff i_dim i_data a_shape a_get].
+  split; [reflexivity|]. split; [reflexivity|]. split; [|eexists; intros; reflexivity].
+  set (k := count_trailing_ones (rev (skipn 3 (a_shape (i_data im))))).
+  assert (Hk : (k <= length (a_shape (i_data im)) - 3)%nat).
+  { unfold k. pose proof (count_trailing_ones_le (rev (skipn 3 (a_shape (i_data im))))) as Hle.
+    rewrite rev_length, skipn_length in Hle. exact Hle. }
+  rewrite firstn_firstn. f_equal. lia.
+Qed.
+
+(* enforce_diag=True: an answer has a diagonal affine, a non-diagonal canonical affine is refused *)
+Lemma enforce_diag_spec {V} rot atol (im : img V) r :
+  as_closest_canonical_diag rot atol im = Ok5 r ->
+  as_closest_canonical rot atol im = Ok5 r /\ aff_is_diag (i_aff (snd r)) = true.
+Proof.
+  unfold as_closest_canonical_diag. destruct (as_closest_canonical rot atol im) as [r'|]; [|discriminate].
+  cbn [bind5]. destruct (aff_is_diag (i_aff (snd r'))) eqn:E; [|discriminate].
+  intros H. injection H as <-. now split.
+Qed.
